@@ -431,6 +431,23 @@ func (g *genr) block() []vfexec.Unit {
 			for i := 0; i < m; i++ {
 				u.Txs = append(u.Txs, g.tx(true))
 			}
+			if g.r.Chance(1, 3) {
+				// a later member touches a key an earlier member wrote and reported (begin() is per group,
+				// the written-key list is reset per member)
+				j := g.r.Range(1, m-1)
+				i := g.r.Intn(j)
+				synth := false
+				for _, e := range vfexec.Execers[:6] {
+					if e == string(u.Txs[i].Execer) {
+						synth = true
+					}
+				}
+				if synth {
+					shape := []string{"hidden", "differ", "reported"}[g.r.Intn(3)]
+					vfexec.OverlapGroup(u.Txs, i, j, shape, g.r.Chance(3, 5), nil, g.value())
+					out.Stat("group_overlap_"+shape, 1)
+				}
+			}
 			us = append(us, u)
 			cnt += m
 		} else {
